@@ -366,12 +366,6 @@ impl IsoDate {
         Ok(())
     }
 
-    /// Returns this `IsoDate` in nanoseconds.
-    #[inline]
-    pub(crate) fn as_nanoseconds(&self) -> TemporalResult<EpochNanoseconds> {
-        utc_epoch_nanos(*self, &IsoTime::default())
-    }
-
     /// Functionally the same as Date's abstract operation `MakeDay`
     ///
     /// Equivalent to `IsoDateToEpochDays`
